@@ -101,11 +101,12 @@ def fmtRec (r : Rec) : String :=
 
 /-- Behaviour token of one hook phase. -/
 inductive Beh where
-  | unused | pass | veto (c : Nat) | set (n : Int)
+  | unused | pass | veto (c : Nat) | set (n : Int) | hide
 
 def parseBeh (recPhase : Bool) (b : String) : Option Beh :=
   if b == "-" then some .unused
   else if b == "p" then some .pass
+  else if recPhase && b == "x" then some .hide
   else if b.startsWith "v" then ((b.drop 1).toString.toNat?).map .veto
   else if recPhase && b.startsWith "s" then ((b.drop 1).toString.toInt?).map .set
   else none
@@ -121,6 +122,7 @@ def Beh.onKey : Beh → Option Nat
 def Beh.onRec : Beh → Rec → HookRes
   | .veto c, _ => .veto c
   | .set n, r => .replace { r with n := n }
+  | .hide, r => .replace { r with md := { r.md with deleted := true } }
   | _, _ => .pass
 
 structure D where
